@@ -956,6 +956,15 @@ func main() {
 `
 
 func (i inst) body() string {
+	switch {
+	case i.T == "pool" && i.K == 1:
+		// the go statement stands in a function literal called on the spot
+		return strings.Replace(sources["pool"], "\t\tgo worker(i, jobs, res)\n",
+			"\t\tfunc() {\n\t\t\tgo func() {\n\t\t\t\tworker(i, jobs, res)\n\t\t\t}()\n\t\t}()\n", 1)
+	case i.T == "privsel" && i.K == 2:
+		return strings.Replace(sources["privsel0"], "\t\tgo sworker(i, in, quit)\n\t\tgo feeder(i, in, quit, stop, M)\n",
+			"\t\tfunc() {\n\t\t\tgo func() { sworker(i, in, quit) }()\n\t\t\tgo func() { feeder(i, in, quit, stop, M) }()\n\t\t}()\n", 1)
+	}
 	switch i.T {
 	case "counter", "privsel", "rebind", "iface":
 		return sources[fmt.Sprintf("%s%d", i.T, i.K)]
